@@ -5,10 +5,12 @@ import PasskeyVerif.Driver.Psl
 import PasskeyVerif.Driver.RpId
 import PasskeyVerif.Driver.AuthData
 import PasskeyVerif.Driver.Ctap
+import PasskeyVerif.Driver.Auth
 open PasskeyVerif
 
 structure DriverState where
   hid : Driver.Hid.St := {}
+  au : Driver.Auth.St := {}
 
 def stepLine (st : DriverState) (line : String) : DriverState × String :=
   let (opS, impl) := match splitTab line with
@@ -21,6 +23,9 @@ def stepLine (st : DriverState) (line : String) : DriverState × String :=
     if tok.startsWith "hid." then
       let (h, out) := Driver.Hid.step st.hid op impl
       ({ st with hid := h }, out)
+    else if tok.startsWith "au." then
+      let (a, out) := Driver.Auth.step st.au op impl
+      ({ st with au := a }, out)
     else if tok.startsWith "psl." then (st, Driver.Psl.step op impl)
     else if tok.startsWith "rp." then (st, Driver.RpId.step op impl)
     else if tok.startsWith "ad." then (st, Driver.AuthData.step op impl)
